@@ -175,6 +175,7 @@ class VM:
         self.start_time: Optional[float] = None
         self.instruction_count = 0
         self.native_depth = 0  # nested interpreter loops on the host stack
+        self.base_memory = 0  # estimate of the evaluations this one is nested in
 
         # Exception handling
         self.exception: Optional[JSValue] = None
@@ -213,6 +214,7 @@ class VM:
         self.start_time = parent.start_time
         self.instruction_count = parent.instruction_count
         self.native_depth = parent.native_depth + 1
+        self.base_memory = parent._memory_estimate()
 
     def _check_limits(self) -> None:
         """Check memory and time limits."""
@@ -225,10 +227,12 @@ class VM:
 
         # Check memory limit (approximate)
         if self.memory_limit:
-            # Rough estimate: 100 bytes per stack item
-            mem_used = len(self.stack) * 100 + len(self.call_stack) * 200
-            if mem_used > self.memory_limit:
+            if self._memory_estimate() > self.memory_limit:
                 raise MemoryLimitError("Memory limit exceeded")
+
+    def _memory_estimate(self) -> int:
+        """Rough estimate: 100 bytes per stack item, 200 per call frame."""
+        return self.base_memory + len(self.stack) * 100 + len(self.call_stack) * 200
 
     def _execute(self) -> JSValue:
         """Main execution loop."""
